@@ -298,6 +298,12 @@ impl<const LEVELS: usize> Env<LEVELS> {
     pub fn get_transactions(&self) -> &Vec<Event<OrderId>> {
         &self.transactions
     }
+
+    /// Verification hook (feature `bourse_verif`): read-only view of the queued instructions
+    #[cfg(feature = "bourse_verif")]
+    pub fn verif_transactions(&self) -> &Vec<Event<OrderId>> {
+        &self.transactions
+    }
 }
 
 #[cfg(test)]
